@@ -19,6 +19,7 @@ def sample(r):
 def run(rep, tier):
     lib.proof_gate(rep, PROP, THEOREMS, IMPORTS)
     n, cyc = (96, 300) if tier == "quick" else (4000, 600)
+    n = rep.scale(n)
     agg = runner.correspondence(rep, prop=PROP, mod_name="harness.muxsim", driver_kind="mux", ncases=n,
                                 extra=("r", cyc), nontrivial=nontrivial, oracle_props={"C04"},
                                 sample_fmt=sample, mask_model=muxsim.mask_r)
